@@ -7,12 +7,16 @@ namespace Oc.Driver.Trap
 open Oc Oc.Trap
 
 def seg : Seg := ⟨1000000, 1000⟩
+/-- a segment added by `maybe_grow` -/
+def seg2 : Seg := ⟨3000000, 2000000⟩
 
 def parseProg (s : String) : List Step :=
   (s.trimAscii.toString.splitOn ",").filterMap (fun t =>
     if t == "S" then some .susp
     else if t.startsWith "R" then (t.drop 1).toString.toNat?.map .ret
     else if t.startsWith "F" then some (.fault 5000)
+    -- the fault happens while the coroutine runs on a grown segment: the stack pointer is inside it
+    else if t.startsWith "G" then some (.fault 2005000)
     else none)
 
 def showRes : Option TRes → String
@@ -25,7 +29,10 @@ def drive (body impl : String) : Verdict :=
   let parts := splitTrim body ";"
   let progs := parts.dropLast.map parseProg
   let sched := (words ((parts.getLastD "").replace "sched:" "")).map (fun x => x.toNat?.getD 0)
-  let cos : List TCo := progs.map (fun p => { segs := [seg], prog := p })
+  let progStrs := parts.dropLast
+  let cos : List TCo := (progs.zip progStrs).map (fun (p, str) => { segs := if str.contains "G" then [seg, seg2] else [seg], prog := p })
+  -- which coroutines fault with a wild access (stack pointer inside the stack) rather than by overflow
+  let wild : List Bool := progStrs.map (fun str => (str.splitOn ",").any (fun t => t == "Fnw" || t == "Fnr" || t == "Fwr" || t == "Gnw" || t == "Gnr" || t == "Gwr"))
   -- pure boundary queries: bottom-1, bottom, top-1, top, 0, max
   let bits := String.ofList ([seg.bottom - 1, seg.bottom, seg.top - 1, seg.top, 0, 18446744073709551615].map
     (fun sp => if inBounds [seg] sp then '1' else '0'))
@@ -37,9 +44,14 @@ def drive (body impl : String) : Verdict :=
   -- messages); healthy ones report exactly their own results
   let resOuts := (outs.drop 1).take sched.length
   let pairs := (rs.zip (resOuts ++ List.replicate (rs.length - resOuts.length) ""))
+  let wildAt : List Bool := sched.map (fun c => wild.getD c false)
   let fails : List String :=
     (if abn ∨ outs.getLast? != some "alive" then [s!"[thread-died] a fault inside a coroutine took the thread/process down: {impl.takeEnd 60}"] else []) ++
     (if outs.head? != some s!"bounds={bits}" then [s!"[bounds] stack_ptr_in_bounds at the segment boundaries: {outs.headD ""}, expected bounds={bits}"] else []) ++
+    ((pairs.zip (wildAt ++ List.replicate (pairs.length - wildAt.length) false)).filterMap fun ((m, i), w) => match m with
+      | some (.error _) => if w ∧ i == "Err(stack_overflow)" then
+          some s!"[wrong-fault-message] a wild access with the stack pointer inside the coroutine's stack segments was reported as a stack overflow" else none
+      | _ => none) ++
     (pairs.filterMap fun (m, i) => match m with
       | some (.error _) => if i == "Err(invalid_memory_reference)" ∨ i == "Err(stack_overflow)" then none
           else some s!"[fault-not-error] faulting coroutine reported {i}"
@@ -49,6 +61,7 @@ def drive (body impl : String) : Verdict :=
     spec := [("C24", fails.isEmpty, joinWith " ; " fails)],
     labels := (if rs.any (fun r => match r with | some (.error _) => true | _ => false) then ["fault"] else ["no-fault"]) ++
               (if cos.length > 1 then ["multi"] else ["single"]) ++
-              (if body.contains "Fov" then ["overflow"] else []) }
+              (if body.contains "Fov" then ["overflow"] else []) ++
+              (if body.contains "G" then ["fault-on-grown-segment"] else []) }
 
 end Oc.Driver.Trap
